@@ -76,7 +76,8 @@ struct vf_ctx {
 	size_t live_bytes;
 	int id;
 	int cur_src;		/* for flavours without a FILE identity (C++) */
-	uint32_t flags;
+	uint32_t flags;		/* 1: log delivered count; 2: sources are real (temporary) files */
+	uint32_t bufsize;	/* size for explicitly created buffers, 0 = YY_BUF_SIZE */
 };
 
 static __thread struct vf_ctx *vf_tls VF_UNUSED;
@@ -346,7 +347,8 @@ static const char *vf_fatal_kind(const char *msg)
 	if (strstr(msg, "stack underflow")) return "underflow";
 	if (strstr(msg, "push-back overflow")) return "pushback";
 	if (strstr(msg, "token too large")) return "toobig";
-	if (strstr(msg, "scanner uses yyreject") || strstr(msg, "scanner uses REJECT")) return "reject_ovf";
+	if (strstr(msg, "scanner uses yyreject") || strstr(msg, "scanner uses REJECT") ||
+	    strstr(msg, "scanner uses reject")) return "reject_ovf";
 	if (strstr(msg, "out of dynamic memory") || strstr(msg, "out of memory")) return "nomem";
 	if (strstr(msg, "input in flex scanner failed")) return "readfail";
 	if (strstr(msg, "bad buffer")) return "badbuf";
@@ -407,8 +409,13 @@ static long vf_src_read(struct vf_src *s, char *buf, size_t max)
 static VF_UNUSED void vf_rewind(struct vf_ctx *c, int i)
 {
 	c->src[i].pos = 0;
-	if (c->src[i].fp)
+	if (c->src[i].fp) {
 		clearerr(c->src[i].fp);
+		if (c->flags & 2) {
+			rewind(c->src[i].fp);
+			lseek(fileno(c->src[i].fp), 0, SEEK_SET);
+		}
+	}
 }
 
 static struct vf_src *vf_find_src(struct vf_ctx *c, FILE *fp)
@@ -474,6 +481,19 @@ static void vf_open_sources(struct vf_ctx *c)
 	cookie_io_functions_t rf = { vf_cookie_read, NULL, NULL, vf_cookie_close };
 	cookie_io_functions_t wf = { NULL, vf_cookie_write, NULL, vf_cookie_close };
 	for (i = 0; i < c->nsrc; ++i) {
+		if (c->flags & 2) {
+			/* a real file, for the read(2) input path */
+			FILE *t = tmpfile();
+			if (!t)
+				_exit(95);
+			if (c->src[i].n && fwrite(c->src[i].d, 1, c->src[i].n, t) != c->src[i].n)
+				_exit(95);
+			fflush(t);
+			rewind(t);
+			lseek(fileno(t), 0, SEEK_SET);
+			c->src[i].fp = t;
+			continue;
+		}
 		c->src[i].fp = fopencookie(&c->src[i], "r", rf);
 		if (!c->src[i].fp)
 			_exit(95);
@@ -537,6 +557,7 @@ static VF_UNUSED void vf_load(struct vf_ctx *c, const char *pack, const char *lo
 		c->strn[i] = n;
 	}
 	c->alloc_fail_at = (long) vf_rd32(f);
+	c->bufsize = vf_rd32(f);
 	nf = vf_rd32(f);
 	for (i = 0; i < nf; ++i) {
 		uint32_t s = vf_rd32(f), at = vf_rd32(f), en = vf_rd32(f);
